@@ -44,7 +44,6 @@ func (m *Machine) callValue(fv Value, cc *ssa.CallCommon, args []Value) Value {
 	panic(fmt.Sprintf("callValue %T", fv))
 }
 
-
 func (m *Machine) callFn(fn *ssa.Function, args []Value, free ...Value) Value {
 	name := fn.String()
 	if r, ok := m.redirect(name, args); ok {
@@ -60,16 +59,26 @@ func (m *Machine) callFn(fn *ssa.Function, args []Value, free ...Value) Value {
 		m.unmodelled[name]++
 		return m.havoc(fn.Signature.Results(), name)
 	}
-	for _, s := range stopPrefixes {
-		if strings.HasPrefix(name, s) || strings.HasPrefix(name, "(*"+s) || strings.HasPrefix(name, "("+s) {
-			m.unmodelled[name]++
-			return m.havoc(fn.Signature.Results(), name)
+	if !m.enterListed(name) {
+		for _, s := range append(stopPrefixes, m.spec.Havoc...) {
+			if strings.HasPrefix(name, s) || strings.HasPrefix(name, "(*"+s) || strings.HasPrefix(name, "("+s) {
+				m.unmodelled[name]++
+				return m.havoc(fn.Signature.Results(), name)
+			}
 		}
 	}
 	m.entered[name]++
 	return m.call(fn, args, false, free...)
 }
 
+func (m *Machine) enterListed(name string) bool {
+	for _, s := range m.spec.Enter {
+		if strings.HasPrefix(name, s) || strings.HasPrefix(name, "(*"+s) || strings.HasPrefix(name, "("+s) {
+			return true
+		}
+	}
+	return false
+}
 
 var stopPrefixes = []string{"github.com/prometheus", "github.com/pion", "fmt.", "log.", "encoding/json.", "reflect.", "net/http.", "net/url.", "regexp.", "os.", "syscall.", "runtime."}
 
@@ -388,6 +397,11 @@ func (m *Machine) intrinsic(name string, fn *ssa.Function, args []Value) (Value,
 		}
 		panic("unknown verifapi function " + name)
 	}
+	if strings.HasPrefix(name, "unique.Make[") {
+		// Handle[T]{value *T}; no canonicalisation (only netip zone handles use it)
+		v := copyVal(args[0])
+		return Struct{SlotPtr{&v}}, true
+	}
 	switch name {
 	case "internal/bytealg.IndexByteString", "internal/bytealg.IndexByte":
 		return m.indexByte(args[0], args[1].(*Term), false), true
@@ -676,7 +690,6 @@ func (m *Machine) indexByte(sv Value, c *Term, last bool) Value {
 	}
 	return r
 }
-
 
 func addBound(am int, al *Term, bm int, bl *Term) int {
 	if al.isC {
